@@ -74,6 +74,11 @@ func harObfuscate(side string, exclusions []string, body string) (string, error)
 // (generateHAR obfuscates the request body, then the response body, with one apiStreamObfuscator)
 // and returns the exported request body and response content.
 func harTxn(exclusions []string, reqBody, respBody string) (string, string, error) {
+	return harTxnWire(exclusions, reqBody, respBody, map[string]string{"x-verif": "1"}, map[string]string{"x-verif": "1"})
+}
+
+// harTxnWire: the bodies as they are on the wire (possibly gzip-encoded) with their headers.
+func harTxnWire(exclusions []string, reqBody, respBody string, reqHeaders, respHeaders map[string]string) (string, string, error) {
 	harSetup()
 	params := map[string]streamtypes.ProcessorParam{
 		"exporter_id":                {Name: "exporter_id", Value: public_types.NewParamValue(exporterID)},
@@ -86,7 +91,7 @@ func harTxn(exclusions []string, reqBody, respBody string) (string, string, erro
 		return "", "", fmt.Errorf("NewProcessor: %w", err)
 	}
 	st := test_utils.NewMockAPIStreamFull(public_types.StreamTypeResponse, "POST", "https://example.com/v1/things",
-		map[string]string{"x-verif": "1"}, map[string]string{"x-verif": "1"}, reqBody, respBody, 200)
+		reqHeaders, respHeaders, reqBody, respBody, 200)
 	harCap.mu.Lock()
 	harCap.last = nil
 	harCap.mu.Unlock()
